@@ -42,7 +42,7 @@ def faults_C10(ctx, proof_ok):
         return
     cached, p = streams.cache_get(ctx, "faults")
     if cached is None:
-        bases = fault_bases(ctx)
+        bases = streams.replay_override(ctx, "history", fault_bases(ctx), lambda h: dict(h, obs=[], calls=[{k: v for k, v in c.items() if k not in ("fault", "tmo")} for c in h["calls"] if not str(c.get("name", "")).startswith("/probe-")]))
         clean = hist.run_many(bases)
         plans = []
         for bi, (h, (res, rc, err)) in enumerate(zip(bases, clean)):
@@ -216,6 +216,7 @@ def readonly_C15(ctx, proof_ok):
                                            {"op": "ro_switch", "flag": nowrite, "obs": ["tapesha", "rows", "tree"]}] + copy.deepcopy(ro_calls) + \
                              [{"op": "nop", "obs": ["tapesha", "rows", "tree"]}]
                 hs.append(h)
+        hs = [h for h in streams.replay_override(ctx, "history", hs) if any(c["op"] == "ro_switch" for c in h["calls"])]
         res = hist.run_many(hs)
         cached = [dict(h=h, res=r, rc=rc, err=e[-600:]) for h, (r, rc, e) in zip(hs, res)]
         streams.cache_put(p, cached)
